@@ -9,6 +9,7 @@ mod exec;
 mod hnsw;
 mod lpg;
 mod ops;
+mod pers;
 mod rdf;
 mod sess;
 mod tx;
@@ -50,6 +51,7 @@ fn main() {
                 "lpg" => lpg::generate(seed, cases, &mut out),
                 "sess" => sess::generate(seed, cases, &mut out),
                 "algo" => algo::generate(seed, cases, &mut out),
+                "pers" => pers::generate(seed, cases, &mut out),
                 "hnsw" => hnsw::generate(seed, cases, &mut out),
                 "wal" => wal::generate(seed, cases, args.iter().any(|a| a == "--thorough"), &mut out),
                 _ => {
@@ -71,6 +73,7 @@ fn main() {
             let mut rdfst = rdf::RdfSt::new();
             let mut lpgst = lpg::LpgSt::new();
             let mut sessst = sess::SessSt::new();
+            let mut persst = pers::PersSt::new();
             for line in stdin.lock().lines() {
                 let line = line.unwrap();
                 if line.starts_with('#') {
@@ -80,6 +83,7 @@ fn main() {
                         rdfst = rdf::RdfSt::new();
                         lpgst = lpg::LpgSt::new();
                         sessst = sess::SessSt::new();
+                        persst = pers::PersSt::new();
                     }
                     continue;
                 }
@@ -95,6 +99,7 @@ fn main() {
                     Some("lpg") => lpg::run(&mut lpgst, &toks[1..]),
                     Some("sess") => sess::run(&mut sessst, &toks[1..]),
                     Some("algo") => algo::run(&toks[1..]),
+                    Some("pers") => pers::run(&mut persst, &toks[1..]),
                     Some("hnsw") => hnsw::run(&toks[1..]),
                     _ => "bad-op".to_string(),
                 };
